@@ -161,6 +161,16 @@ def check_packet_error_class(ctx):
             if isinstance(v, ast.List) and len(v.elts) == 1 and isinstance(v.elts[0], ast.Tuple):
                 shape0 = [canon(x) for x in v.elts[0].elts]
                 ctx.holds(rule, init, stmt_text(n), 'innermost entry stored first, shape %s' % shape0, n.lineno)
+            elif isinstance(v, ast.List) and not v.elts:
+                # seeded through the same method that adds the parents
+                seeds = [c for c in ast.walk(init.node) if isinstance(c, ast.Call) and isinstance(c.func, ast.Attribute) and c.func.attr == addp.node.name
+                         and canon(c.func.value) == init.node.args.args[0].arg]
+                ap = [a.arg for a in addp.node.args.args][1:]
+                if len(seeds) == 1 and len(seeds[0].args) == len(ap) and not seeds[0].keywords:
+                    shape0 = [canon(x) for x in seeds[0].args]
+                    ctx.holds(rule, init, '%s; %s' % (stmt_text(n), stmt_text(seeds[0])), 'innermost entry stored first (through %s), shape %s' % (addp.node.name, shape0), n.lineno)
+                else:
+                    ctx.undecided(rule, init, stmt_text(n), 'the stack starts empty and the rule cannot see how the innermost entry is stored', n.lineno)
             else:
                 ctx.undecided(rule, init, stmt_text(n), 'initial stack is not a one-element list of a tuple', n.lineno)
     if shape0 is None:
@@ -193,22 +203,39 @@ def check_packet_error_class(ctx):
     offset_vars = set()
     npos = len(shape0) if shape0 else 3
     off_idx = shape0.index('offset') if shape0 and 'offset' in shape0 else 0
-    for n in ast.walk(strm.node):
+    str_funcs = repo.reach(strm)            # __str__ and the formatting helpers it calls
+    str_nodes = [x for f in str_funcs for x in ast.walk(f.node)]
+    for n in str_nodes:
         tgt = None
-        if isinstance(n, ast.For) and 'fields_stack' in unparse(n.iter):
+        if isinstance(n, (ast.For, ast.comprehension)) and 'fields_stack' in unparse(n.iter) and not isinstance(n.target, ast.Name):
             tgt = n.target
         elif isinstance(n, ast.Assign) and 'fields_stack' in unparse(n.value) and isinstance(n.targets[0], ast.Tuple):
             tgt = n.targets[0]
             if not (isinstance(n.value, ast.Subscript) and isinstance(n.value.slice, ast.Constant) and n.value.slice.value == 0):
                 ctx.violation(rule, strm, stmt_text(n), 'the entry reported as the failing field is not fields_stack[0] (the innermost one)', n.lineno)
+        elif isinstance(n, ast.Assign) and isinstance(n.targets[0], ast.Tuple) and len(n.targets[0].elts) == npos and isinstance(n.value, ast.Name) \
+                and any(isinstance(f_.node, ast.FunctionDef) and n in ast.walk(f_.node) and n.value.id in [a.arg for a in f_.node.args.args] for f_ in str_funcs[1:]):
+            tgt = n.targets[0]            # a helper unpacking the stack entry it was given
         if tgt is not None:
             if isinstance(tgt, ast.Tuple) and len(tgt.elts) == npos and all(isinstance(x, ast.Name) for x in tgt.elts):
                 offset_vars.add(tgt.elts[off_idx].id)
                 ctx.holds('R7-stack-shape', strm, stmt_text(tgt), 'unpacks %d-tuples, offset at index %d' % (npos, off_idx), n.lineno)
             else:
                 ctx.violation('R7-stack-shape', strm, stmt_text(n)[:120], 'stack entries are unpacked into %s, but they are %d-tuples' % (unparse(tgt), npos), n.lineno)
+    # a helper called with a whole stack entry spread over its parameters: helper(*entry)
+    entry_vars = {b.target.id for b in str_nodes if isinstance(b, (ast.For, ast.comprehension)) and isinstance(b.target, ast.Name) and 'fields_stack' in unparse(b.iter)}
+    for c in str_nodes:
+        if isinstance(c, ast.Call) and len(c.args) == 1 and isinstance(c.args[0], ast.Starred) and isinstance(c.args[0].value, ast.Name) and c.args[0].value.id in entry_vars and not c.keywords:
+            name = c.func.attr if isinstance(c.func, ast.Attribute) else c.func.id if isinstance(c.func, ast.Name) else None
+            for f_ in str_funcs[1:]:
+                if f_.node.name == name:
+                    static = any(isinstance(d, ast.Name) and d.id == 'staticmethod' for d in f_.node.decorator_list)
+                    ps = [a.arg for a in f_.node.args.args][(0 if static or f_.cls is None else 1):]
+                    if len(ps) == npos:
+                        offset_vars.add(ps[off_idx])
+                        ctx.holds('R7-stack-shape', f_, '%s(%s) called with *%s' % (name, ', '.join(ps), c.args[0].value.id), 'takes a %d-tuple entry, offset at index %d' % (npos, off_idx), f_.node.lineno)
     nfmt = 0
-    for n in ast.walk(strm.node):
+    for n in str_nodes:
         if isinstance(n, ast.BinOp) and isinstance(n.op, ast.Mod) and not isinstance(n.left, ast.Constant) and _looks_like_format(n):
             nfmt += 1
             ctx.violation(rule, strm, stmt_text(n)[:160], 'the format string of a percent-format is built at run time ({}): a "%" in the embedded text makes rendering raise'.format(canon(n.left)[:80]), n.lineno)
@@ -228,7 +255,7 @@ def check_packet_error_class(ctx):
                         ok = ctx.violation(rule, strm, st, 'numeric conversion %%%s applied to %s, which is not a stack offset: rendering may raise TypeError' % (cv, canon(a)), n.lineno)
             if ok:
                 ctx.holds(rule, strm, st, '%d conversions / %d arguments; numeric conversions on offsets only' % (len(conv), len(args)), n.lineno)
-    for n in ast.walk(strm.node):
+    for n in str_nodes:
         if isinstance(n, ast.JoinedStr):
             nfmt += 1
             ok = True
@@ -381,5 +408,5 @@ def check(ctx):
     c11_check(ctx, parts=('atomic',))
     check_packet_error_class(ctx)
     ctx.floor('drivers analysed', ctx.units.get('drivers', 0), 4)
-    ctx.floor('format sites in PacketError.__str__', ctx.units.get('format_sites', 0), 3)
+    ctx.floor('format sites in PacketError.__str__ and its helpers', ctx.units.get('format_sites', 0), 2)
     ctx.trust(*ASSUMPTIONS[:2])
